@@ -114,7 +114,7 @@ class Model:
             for s in (0, 1):
                 for side in self.sides:
                     for e in ("fixedValue", "fixedGradient", "newtonCooling", "defaultNoFlux", "set_a", "slice_c", "index_a",
-                              "set_b", "set_c", "newtonReverse", "fixedGradientScaled"):
+                              "set_b", "set_c", "newtonReverse", "fixedGradientScaled", "c_ppm", "b_ppm", "c_iadd"):
                         m.append("bc:%d:%s:%s" % (s, side, e))
                 if self.paxis is not None:
                     m += ["per:%d:on" % s, "per:%d:off" % s]
@@ -244,6 +244,12 @@ class Model:
                 bf.newtonCooling(1.0, 2.0, 3.0, reverse_direction=True)
             elif e == "fixedGradientScaled":
                 bf.fixedGradient(0.5, scale_coeffs=2.0)
+            elif e == "c_ppm":        # re-assignment with a value that differs by a few ppm / by 1e-9 absolute
+                bf.c = np.asarray(bf.c) * (1.0 + 2.0 ** -18) + 2.0 ** -30
+            elif e == "b_ppm":
+                bf.b = np.asarray(bf.b) * (1.0 + 2.0 ** -18) + 2.0 ** -30
+            elif e == "c_iadd":       # augmented assignment through the property
+                bf.c += 0.5
         elif p[0] == "per":
             lo, hi = U.SIDES[self.paxis]
             getattr(v.BCs, lo).periodic = (p[2] == "on")
